@@ -110,6 +110,9 @@ class Property:
     def warmup(self):
         """Called once in the parent before forking (compile numba helpers etc.)."""
 
+    def cleanup(self):
+        """Called at the end of every worker process (remove scratch files)."""
+
     # --- helpers ----------------------------------------------------------------------
     def run_case(self, spec) -> Ctx:
         ctx = Ctx()
@@ -305,6 +308,11 @@ def run_jobs(prop: Property, jobs):
 def _child(conn, fn, args):
     try:
         res = fn(*args)
+        try:  # forked workers leave through os._exit (no atexit handlers): give the property a chance to remove its scratch files
+            if args and isinstance(args[0], Property):
+                args[0].cleanup()
+        except Exception:  # noqa: BLE001 - cleaning up must never turn into a verdict
+            pass
         conn.send(("ok", res))
     except HarnessError as exc:
         conn.send(("harness", str(exc)))
